@@ -112,6 +112,17 @@ func runC14(w *World) {
 		}
 		return p
 	})
+	if withRewrite {
+		// two neighbours in id order, the first with a (distant) deadline and the second without,
+		// that nothing else in the program touches by name: what the rewritten log says about
+		// each of them is looked at right after the swap
+		prog = append([]Cmd{
+			{Args: []string{"SET", "k1", "t1", "EX", "100", "POINT", "11", "11"}},
+			{Args: []string{"SET", "k1", "t2", "POINT", "12", "12"}},
+			{Args: []string{"SET", "k1", "t3", "EX", "200", "STRING", "with a deadline"}},
+			{Args: []string{"SET", "k1", "t4", "FIELD", "f1", "7", "STRING", "without"}},
+		}, prog...)
+	}
 	a := w.addActor(n, "127.0.0.1:50001", prog)
 	a.onReply = func(op *Op) { hc.onReply(op, a.end.c.name) }
 	// a third of the runs have a follower: expirations reach it as logged DELs
